@@ -1,7 +1,21 @@
 """C04: posted events fire exactly once, at their time, in posting order on ties.
-Tie B: whole runs of ScriptProcess tables dominated by queue operations (also issued from inside
-handlers) against Model/Kernel.v.  D: an independent reference queue (sorted list) run in lock-step
-over the observation stream."""
+
+Two families of cases.
+
+kind 'script' (the default; a case without 'kind'): whole runs of ScriptProcess tables dominated by queue operations
+(also issued from inside handlers).  Tie B: co-execution against Model/Kernel.v.  D: an independent reference queue
+(sorted list) run in lock-step over the observation stream.
+
+kind 'shipped': whole runs of the shipped processes that are built on posted events - SIR_FixedRecovery and
+SIS_FixedRecovery (bare, as a named instance, two named instances in a ProcessSequence on one network, each with a
+Monitor before or after it), SIR / SIS with a Monitor, PulseCoupledOscillator - under both dynamics with the scripted
+random source, a quarter of them as the second run on the same Dynamics object.  They are observed by the generic
+queue spy (harness/queuespy.py: the queue API wrapped on the Dynamics instance, every posted event function wrapped)
+and judged by D only: the same reference queue run in lock-step over the spy's log, clause by clause of the property
+text.  They are NOT sent to Coq (to_coq returns None, so they are not counted as compared with the model): the Coq
+co-execution of these processes lives in the C07 / C12 / C20 ties."""
+import json
+
 from vlib.core import Harness
 from harness import kcommon
 
@@ -24,46 +38,495 @@ class RefQueue:
         return i, self.live[i]
 
 
+# ====================================================================== shipped processes: generation
+
+FR = ('SIR_FixedRecovery', 'SIS_FixedRecovery')
+PLAIN = ('SIR', 'SIS')
+DELTAS = [0.125, 0.25, 0.25, 0.375, 0.5, 0.5, 0.75, 1.0, 1.0, 1.25, 1.5, 2.5, 4.0]
+T_INF = [0.25, 0.5, 0.5, 0.75, 1.0, 1.0, 1.5, 2.0, 3.0, 0.0]
+FR_SHAPES = ['bare', 'named', 'two', 'mon-first', 'mon-last', 'named-mon', 'two-mon']
+
+
+def _disease(rnd, model, inst, dynamics):
+    from harness import compart
+    pv = compart.gen_params(rnd, dynamics)
+    pv['pSeed'] = rnd.choice([0.25, 0.5, 0.5])
+    pv['tInf'] = rnd.choice(T_INF)
+    if model in FR:
+        # enough infections (and, for SIS, re-infections of the same node) for tens of posted removals
+        pv['pSeed'] = rnd.choice([0.25, 0.5, 0.5, 0.75])
+        pv['pInfect'] = rnd.choice([0.5, 1.0, 1.0] + ([2.0] if dynamics == 'stochastic' else []))
+    return {'model': model, 'inst': inst, 'pv': pv}
+
+
+def _monitor(rnd, maxtime):
+    d = rnd.choice(DELTAS)
+    while maxtime / d > 48:
+        d *= 2
+    return {'model': 'Monitor', 'delta': d}
+
+
+def gen_shipped(rnd, i):
+    """the i-th shipped case of a stream: i % 4 == 0 are second runs on the same Dynamics object"""
+    from harness import compart, c20
+    fam = ['pulse', 'fr', 'mon', 'fr', 'pulse', 'fr', 'mon', 'pulse', 'fr', 'fr', 'mon'][(i // 4 + i) % 11]
+    prerun = (i % 4 == 0)
+    seed = rnd.randrange(1 << 30)
+    if fam == 'pulse':
+        kind = rnd.choice(['complete', 'complete', 'cycle', 'star', 'random', 'random', 'loops'])
+        case = c20.gen_case(rnd)
+        if rnd.random() < 0.8:
+            case['graph'] = c20.gen_graph(rnd, kind, 2, 8)
+            n = len(case['graph']['nodes'])
+            st = list(case['states'])
+            while len(st) < n:
+                st.append(rnd.choice(st) if rnd.random() < 0.4 else rnd.randrange(0, 1 << 20) / float(1 << 20))
+            case['states'] = st[:n]
+            # keep the run at tens of firings
+            cycles = case['maxtime'] / case['period']
+            if n * cycles > 28:
+                case['maxtime'] = case['period'] * max(1.5, 28.0 / n)
+                if case['dynamics'] == 'synchronous':
+                    case['maxtime'] = float(max(2, int(case['maxtime'])))
+        case = {k: v for k, v in case.items() if k in ('graph', 'period', 'b', 'coupling', 'maxtime', 'dynamics', 'states', 'inst', 'decoy')}
+        case.update(kind='shipped', family='pulse', seed=seed, prerun=prerun)
+        return case
+    dynamics = rnd.choice(['stochastic', 'synchronous'])
+    maxtime = rnd.choice([2.0, 3.0, 4.0, 5.0]) if dynamics == 'synchronous' else rnd.choice([1.5, 3.0, 4.5, 6.0])
+    graph = compart.gen_graph(rnd, lo=2, hi=8)
+    if fam == 'fr':
+        if rnd.random() < 0.75:
+            graph = compart.gen_graph(rnd, lo=4, hi=8)
+            maxtime = rnd.choice([3.0, 4.0, 6.0]) if dynamics == 'synchronous' else rnd.choice([3.0, 4.5, 6.0, 8.0])
+        shape = FR_SHAPES[(i // 3) % len(FR_SHAPES)]
+        named = shape.startswith(('named', 'two'))
+        procs = [_disease(rnd, rnd.choice(FR + ('SIS_FixedRecovery',)), 'a' if named else None, dynamics)]
+        if shape.startswith('two'):
+            procs.append(_disease(rnd, rnd.choice(FR + FR + PLAIN), 'b', dynamics))
+        if shape in ('mon-first', 'named-mon', 'two-mon') and rnd.random() < 0.6 or shape == 'mon-first':
+            procs.insert(0, _monitor(rnd, maxtime))
+        elif shape.endswith('mon') or shape == 'mon-last':
+            procs.append(_monitor(rnd, maxtime))
+    else:
+        shape = 'plain-mon'
+        procs = [_disease(rnd, rnd.choice(PLAIN), rnd.choice([None, None, 'a']), dynamics)]
+        procs.insert(rnd.choice([0, 0, 1]), _monitor(rnd, maxtime))
+    return {'kind': 'shipped', 'family': 'compart', 'shape': shape, 'procs': procs, 'graph': graph, 'dynamics': dynamics,
+            'maxtime': maxtime, 'seed': seed, 'prerun': prerun}
+
+
+# ====================================================================== shipped processes: running
+
+def run_shipped(case, budget=400):
+    import epyc
+    import epydemic as ep
+    from epydemic import Dynamics
+    from vlib.oracle import Oracle, install, uninstall
+    from harness import compart, c20, kscript
+    from harness.queuespy import QueueSpy, Stuck
+
+    params = {}
+    if case['family'] == 'pulse':
+        g = c20.make_graph(case['graph'])
+        inst = case.get('inst')
+        top = ep.PulseCoupledOscillator(inst) if inst is not None else ep.PulseCoupledOscillator()
+        own = {ep.PulseCoupledOscillator.PERIOD: case['period'], ep.PulseCoupledOscillator.B: case['b'],
+               ep.PulseCoupledOscillator.COUPLING: case['coupling']}
+        if inst is None:
+            params = dict(own)
+        else:
+            # a named instance reads its own (decorated) parameters; the plain names may carry other values
+            params = dict(case.get('decoy') or {})
+            top.setParameters(params, own)
+        orc = Oracle(seed=case.get('seed', 0), script={'random': list(case['states'])}, strict=True)
+    else:
+        g = compart.make_graph(case['graph'])
+        ms = compart.models()
+        procs = []
+        for pd in case['procs']:
+            if pd['model'] == 'Monitor':
+                procs.append(ep.Monitor())
+                params[ep.Monitor.DELTA] = pd['delta']
+            else:
+                inst = pd.get('inst')
+                procs.append(ms[pd['model']](inst) if inst is not None else ms[pd['model']]())
+                params.update(compart.params_for(pd['model'], pd['pv'], inst))
+        top = procs[0] if len(procs) == 1 else ep.ProcessSequence(procs)
+        orc = Oracle(seed=case.get('seed', 0))
+    top.setMaximumTime(case['maxtime'])
+    dcls = ep.StochasticDynamics if case['dynamics'] == 'stochastic' else ep.SynchronousDynamics
+    dyn = dcls(top, g)
+    spy = QueueSpy(dyn).install()
+    taps = [0]
+
+    def tap(t, p, name, e):
+        taps[0] += 1
+        if taps[0] > budget:
+            raise kscript.Budget('run exceeds the harness budget of %d events' % budget)
+    dyn.eventFired = tap
+
+    exc = None
+    rc = None
+    pre_exc = None
+    try:
+        if case.get('prerun'):
+            # an earlier run on the SAME Dynamics object with other random choices: whatever it leaves behind
+            # (queue, finder, id counter, clock) must not reach the second run
+            install(Oracle(seed=case.get('seed', 0) + 1))
+            try:
+                dyn.set(params).run(fatal=True)
+            except Exception as e:
+                pre_exc = type(e).__name__ + ': ' + str(e)
+            taps[0] = 0
+        install(orc)
+        try:
+            rc = dyn.set(params).run(fatal=True)
+        except Exception as e:   # observable behaviour: recorded, judged by D
+            exc = type(e).__name__ + ': ' + str(e)
+    finally:
+        uninstall()
+    md = (rc or {}).get(epyc.Experiment.METADATA, {}) if rc else {}
+    nfire = sum(1 for r in spy.runs for o in r['log'] if o[0] == 'fire')
+    obs = {'exception': exc, 'prerun_exception': pre_exc, 'runs': spy.runs, 'time': md.get(Dynamics.TIME), 'events': md.get(Dynamics.EVENTS),
+           'stats': {'shipped_cases': 1, 'shipped_runs_observed': len(spy.runs), 'shipped_events_fired': nfire,
+                     'shipped_' + case['family'] + '_' + case['dynamics']: 1,
+                     'shipped_unposts': sum(1 for r in spy.runs for o in r['log'] if o[0] == 'unpost'),
+                     'shipped_repetitions': sum(1 for r in spy.runs for o in r['log'] if o[0] == 'rep-enter')}}
+    for x in (exc, pre_exc):
+        if x and x.split(':')[0] in ('Budget', 'Stuck'):
+            obs['skipped'] = True      # D still judges the part of the log that exists
+    return obs
+
+
+# ====================================================================== shipped processes: the direct oracle
+
+def _close(a, b):
+    try:
+        return a == b or abs(a - b) <= 1e-9 * max(1.0, abs(a), abs(b))
+    except TypeError:
+        return False
+
+
+def _same(a, b):
+    return a is b or (type(a) == type(b) and a == b) or (isinstance(a, (list, tuple)) and isinstance(b, (list, tuple)) and list(a) == list(b))
+
+
+def check_log(run, log, dynamics):
+    """The property, clause by clause, on the spy's log of one run, against the reference queue."""
+    v = []
+
+    def bad(sig, **detail):
+        v.append({'signature': sig + ':shipped', 'detail': detail})
+    ref = RefQueue()
+    rid = {}            # implementation id -> reference id (= posting sequence number, the tie-break)
+    iid = {}            # and back
+    state = {}          # implementation id -> 'live' | 'fired' | 'unposted'
+    firetime = {}
+    series = {}         # number -> {'t0','dt','e','k','carrier','initial','reposts','calls'}
+    carrier_of = {}     # implementation id -> series number
+    ctx = []            # nesting: ('fire', id) | ('rep', s) | ('postrep', s) | ('until', bound) | ('foreign',)
+    fired = []          # (time, reference id) in firing order
+
+    def top(kind=None):
+        if kind is None:
+            return ctx[-1] if ctx else None
+        for c in reversed(ctx):
+            if c[0] == kind:
+                return c
+        return None
+
+    for o in log:
+        k = o[0]
+        if k == 'post':
+            _, clock, t, e, name, res, _proc = o
+            if not isinstance(res, int) or isinstance(res, bool):
+                if res == 'ValueError':
+                    if not (t < clock):
+                        bad('post-rejected-though-not-in-the-past', entry=o)
+                else:
+                    bad('post-wrong-result', entry=o)
+                continue
+            if t < clock:
+                bad('post-into-past-accepted', entry=o)
+            if res in state:
+                bad('event-id-reused', entry=o, earlier=state[res])
+                continue
+            j = ref.post(t, name, e)
+            rid[res] = j
+            iid[j] = res
+            state[res] = 'live'
+            c = top()
+            if c and c[0] == 'postrep':
+                s = series[c[1]]
+                s['initial'].append(res)
+                if not (_close(t, s['t0']) and _same(e, s['e'])):
+                    bad('repeating-event-initial-post-wrong', entry=o, expected=[s['t0'], s['e']])
+                s['carrier'] = res
+                carrier_of[res] = c[1]
+            elif c and c[0] == 'fire' and c[1] in carrier_of and series[carrier_of[c[1]]]['carrier'] == c[1]:
+                # made inside the firing of a repetition but outside the user's function: the library's re-post
+                s = series[carrier_of[c[1]]]
+                s['reposts'].append(res)
+                exp = firetime.get(c[1], 0.0) + s['dt']
+                if not (_close(t, exp) and _same(e, s['e'])):
+                    bad('repeating-event-reposted-at-wrong-time', entry=o, fired_at=firetime.get(c[1]), dt=s['dt'], expected=exp)
+                carrier_of[res] = carrier_of[c[1]]
+        elif k == 'postrep':
+            _, clock, t, dt, e, name, s, _proc = o
+            series[s] = {'t0': t, 'dt': dt, 'e': e, 'k': 0, 'carrier': None, 'initial': [], 'reposts': [], 'calls': 0, 'clock': clock}
+            ctx.append(('postrep', s))
+        elif k == 'postrep-exit':
+            _, s, exc = o
+            if ctx and ctx[-1] == ('postrep', s):
+                ctx.pop()
+            S = series.get(s)
+            if S is None:
+                continue
+            if S['t0'] < S['clock']:
+                if exc != 'ValueError':
+                    bad('post-into-past-accepted', entry=o, series=S)
+            elif exc is not None or len(S['initial']) != 1:
+                bad('repeating-event-initial-post-wrong', entry=o, posts=S['initial'])
+        elif k == 'unpost':
+            _, clock, i, fatal, res = o
+            if state.get(i) == 'live':
+                due = ref.live[rid[i]][0]
+                if isinstance(res, bool) or not isinstance(res, (int, float)) or res != due:
+                    bad('unpost-wrong-result', entry=o, due=due)
+                del ref.live[rid[i]]
+                state[i] = 'unposted'
+            else:
+                exp = 'KeyError' if fatal else None
+                if res != exp or (exp is None and res is not None):
+                    bad('unpost-of-dead-id-wrong-result', entry=o, expected=exp, fate=state.get(i, 'never posted'))
+        elif k == 'query':
+            _, clock, i, res, who = o
+            exp = ref.live[rid[i]][0] if state.get(i) == 'live' else 'KeyError'
+            if res != exp or isinstance(res, bool):
+                bad('query-wrong-result' if who == 'user' else 'dead-id-still-pending' if exp == 'KeyError' else 'live-id-not-pending',
+                    entry=o, expected=exp, fate=state.get(i, 'never posted'))
+        elif k == 'run-until':
+            ctx.append(('until', o[2]))
+        elif k == 'run-until-exit':
+            _, bound, n, exc = o
+            if ctx and ctx[-1][0] == 'until':
+                ctx.pop()
+            if exc is None:
+                late = [[iid[j], x[0], x[2]] for j, x in ref.live.items() if x[0] <= bound]
+                if late:
+                    bad('due-event-not-fired-by-run-until', bound=bound, pending=late[:4])
+        elif k == 'fire':
+            _, r, i, targ, earg, clock = o
+            if r != run:
+                bad('stale-event-from-earlier-run-fired', entry=o, this_run=run)
+                ctx.append(('foreign',))
+                continue
+            st = state.get(i)
+            if st == 'unposted':
+                bad('unposted-event-fired', entry=o)
+            elif st == 'fired':
+                bad('event-fired-twice', entry=o)
+            elif st is None:
+                bad('fired-event-not-pending', entry=o)
+            else:
+                j = rid[i]
+                t, name, e, _ = ref.live[j]
+                if not (isinstance(targ, (int, float)) and targ == t and _same(earg, e)):
+                    bad('handler-wrong-arguments', entry=o, posted=[t, e])
+                if clock != t:
+                    bad('clock-differs-from-event-time', entry=o, posted_for=t)
+                h = ref.head()
+                if h[0] != j:
+                    bad('fired-out-of-order', fired=[i, t, e], should_be_first=[iid[h[0]], h[1][0], h[1][2]])
+                u = top('until')
+                if u is not None and t > u[1]:
+                    bad('fired-beyond-run-until-bound', entry=o, bound=u[1])
+                del ref.live[j]
+                state[i] = 'fired'
+                firetime[i] = t
+                fired.append((t, j))
+                if i in carrier_of:
+                    S = series[carrier_of[i]]
+                    if S['carrier'] == i:
+                        S['calls'] = 0
+                        S['reposts'] = []
+            ctx.append(('fire', i))
+        elif k == 'fire-exit':
+            _, r, i, exc = o
+            if ctx and ctx[-1][0] in ('fire', 'foreign'):
+                c = ctx.pop()
+                if c[0] == 'foreign':
+                    continue
+            if r == run and i in carrier_of and state.get(i) == 'fired':
+                S = series[carrier_of[i]]
+                if S['carrier'] == i:
+                    if S['calls'] != 1:
+                        bad('repeating-event-handler-not-called-once', id=i, time=firetime.get(i), calls=S['calls'])
+                    if exc is None:
+                        if len(S['reposts']) != 1:
+                            bad('repeating-event-not-reposted-once', id=i, time=firetime.get(i), reposts=S['reposts'])
+                        S['carrier'] = S['reposts'][0] if S['reposts'] else None
+        elif k == 'rep-enter':
+            _, r, s, targ, earg, clock = o
+            ctx.append(('rep', s))
+            if r != run:
+                continue        # reported at the 'fire' entry that contains it
+            S = series.get(s)
+            if S is None:
+                bad('repeating-handler-called-outside-its-event', entry=o)
+                continue
+            c = ctx[-2] if len(ctx) > 1 else None
+            if not (c and c[0] == 'fire' and c[1] == S['carrier']):
+                bad('repeating-handler-called-outside-its-event', entry=o, inside=c, carrier=S['carrier'])
+            exp = S['t0'] + S['k'] * S['dt']
+            if not (_close(targ, exp) and _same(earg, S['e'])):
+                bad('repeating-event-wrong-time', entry=o, repetition=S['k'], expected=[exp, S['e']], t0=S['t0'], dt=S['dt'])
+            S['k'] += 1
+            S['calls'] += 1
+        elif k == 'rep-exit':
+            if ctx and ctx[-1][0] == 'rep':
+                ctx.pop()
+        elif k == 'end':
+            _, end, clock, pending = o
+            impl = sorted([p[0], p[1]] for p in pending)
+            mine = sorted([iid[j], x[0]] for j, x in ref.live.items())
+            if impl != mine:
+                bad('pending-set-differs-at-end', only_in_implementation=[p for p in impl if p not in mine][:6],
+                    only_in_reference=[p for p in mine if p not in impl][:6])
+            if end is not None and dynamics == 'stochastic':
+                late = [[iid[j], x[0], x[2]] for j, x in ref.live.items() if x[0] < end]
+                if late:
+                    bad('due-event-not-fired-by-end', TIME=end, pending=late[:4])
+    if any(fired[i] >= fired[i + 1] for i in range(len(fired) - 1)):
+        bad('fired-sequence-not-increasing', fired=[[t, iid[j]] for t, j in fired[:30]])
+    return v
+
+
+def direct_shipped(case, obs):
+    v = []
+    for r in obs.get('runs', []):
+        for x in check_log(r['run'], r['log'], case['dynamics']):
+            x['detail']['run'] = r['run']
+            v.append(x)
+    for key in ('prerun_exception', 'exception'):
+        exc = obs.get(key)
+        if exc and exc.split(':')[0] not in ('Budget', 'Stuck'):
+            v.append({'signature': 'run-raised:shipped:' + exc.split(':')[0], 'detail': {key: exc}})
+    if not obs.get('skipped') and not obs.get('exception') and not obs.get('prerun_exception'):
+        want = 2 if case.get('prerun') else 1
+        ends = sum(1 for r in obs.get('runs', []) for o in r['log'] if o[0] == 'end')
+        if len(obs.get('runs', [])) != want or ends != want:
+            v.append({'signature': 'harness:spy-saw-wrong-number-of-runs', 'kind': 'harness', 'detail': {'runs': len(obs.get('runs', [])), 'ends': ends}})
+    seen = {}
+    for x in v:
+        seen.setdefault(x['signature'], x)
+    return list(seen.values())
+
+
+# ====================================================================== the harness
+
 class H(Harness):
     ID = 'C04'
     ANCHOR_FILES = ['epydemic/networkdynamics.py', 'epydemic/process.py', 'epydemic/sir_model_fixed_recovery.py', 'epydemic/sis_model_fixed_recovery.py', 'epydemic/monitor.py', 'epydemic/pulsecoupled.py']
     TIE_IMPORT = kcommon.TIE_IMPORT
     CHECK_FN = kcommon.CHECK_FN
     VO_TARGETS = ['Properties/C04.vo', 'Tie/Kernel.vo']
-    QUICK_N = 600
-    THOROUGH_N = 6000
-    RULE = ('random ScriptProcess tables dominated by queue operations: post (incl. zero delay and times preceding queued events), '
-            'post repeating, un-post (fatal and non-fatal, also of the current head and of fired ids), query, post into the past, all also '
-            'issued from inside handlers of posted and of stochastic events; both dynamics (stochastic incl. tables with no stochastic events: '
-            'the a == 0 branch drains the queue); non-trivial = at least 3 posted events fired and at least one un-post or equal-time tie; '
-            'distinct by (table, dynamics, seed)')
+    QUICK_N = 900
+    THOROUGH_N = 9000
+    RULE = ('two families, interleaved 2:1. (script, two thirds; tie B + D) random ScriptProcess tables dominated by queue operations: post '
+            '(incl. zero delay and times preceding queued events), post repeating, un-post (fatal and non-fatal, also of the current head and '
+            'of fired ids), query, post into the past, all also issued from inside handlers of posted and of stochastic events; both dynamics '
+            '(stochastic incl. tables with no stochastic events: the a == 0 branch drains the queue); a quarter preceded by another run on the '
+            'same experiment object; non-trivial = at least 3 posted events fired and at least one un-post or equal-time tie; distinct by '
+            '(table, dynamics, seed). (shipped, one third; D only, not sent to Coq) whole runs under StochasticDynamics and SynchronousDynamics '
+            'with the scripted random source, on networks of 2-8 nodes (path, star, complete, cycle, random, triangle with tail), of '
+            'SIR_FixedRecovery / SIS_FixedRecovery bare, as a named instance, as two named instances in one ProcessSequence (the second also '
+            'plain SIR / SIS), each of these with a Monitor before or after it, of SIR / SIS with a Monitor (dyadic observation intervals '
+            '0.125-4, incl. ones below the event spacing and ones not dividing the run length), infection periods 0-3 (incl. 0 and ones beyond '
+            'the end of the run), and of PulseCoupledOscillator on complete, cycle, star, random and self-loop networks with the periods, '
+            'couplings (incl. 0, 1 and negative), dissipations and scripted initial states (equal groups, nearly equal, 0 and almost 1) of the '
+            'C20 generator; a quarter are the second run on the same Dynamics object (the first one with other random choices, both runs '
+            'judged); observed by the queue spy (queue API wrapped on the Dynamics instance, every posted function wrapped, probes of '
+            'pendingEventTime after every un-post, of every fired id at the next firing and of every id at the end of the run); '
+            'non-trivial = at least 3 posted events fired and an un-post, an equal-time tie, a repetition or a post from inside a handler; '
+            'distinct by the whole case')
     TRUSTED = ['Coq 8.16.1 kernel incl. vm_compute', 'harness/kscript.py, harness/kcommon.py, vlib/oracle.py',
-               'CPython heapq modelled as: pop returns the minimum under (time, id); dict as a finite map']
-    ASSUMPTIONS = ['a handler program that re-posts itself with zero delay forever is outside the generator (runPendingEvents would not terminate)']
+               'CPython heapq modelled as: pop returns the minimum under (time, id); dict as a finite map',
+               'shipped family: harness/queuespy.py (instance-level wrappers of setUp, postEvent, postRepeatingEvent, unpostEvent, '
+               'pendingEventTime, runPendingEvents, simulationEnded and of every posted event function; reading of dyn._postedEventFinder '
+               'at the end of a run), the case builders of harness/compart.py and harness/c20.py; that Process.postEvent & co. forward to '
+               'the Dynamics instance attributes and postRepeatingEvent re-posts through self.postEvent (true of the pinned tree; a '
+               'change that bypasses the wrappers does not pass silently: D then reports a pending set at the end that the reference does '
+               'not know, or a repetition outside any firing)']
+    ASSUMPTIONS = ['a handler program that re-posts itself with zero delay forever is outside the generator (runPendingEvents would not terminate)',
+                   'shipped-process runs are judged by the direct oracle only (no Coq co-execution under C04; that is the C07 / C12 / C20 ties): '
+                   'what D establishes is the property on the observed runs, not for all runs',
+                   'shipped family, repeating events: D identifies the library\'s re-post as the post made inside the firing of a repetition but '
+                   'outside the user\'s function, and compares repetition times with t0 + k*dt at relative 1e-9 (generated intervals are dyadic)',
+                   'the end-of-run clause is demanded under stochastic dynamics only; under both dynamics every return of runPendingEvents(b) '
+                   'must leave no live event due at or before b']
 
     def gen_cases(self, tier, rnd, n):
+        import random
+        r_script = random.Random(rnd.getrandbits(64))
+        r_ship = random.Random(rnd.getrandbits(64))
         out = []
         allow = ['post', 'post', 'post', 'unpost', 'unpost', 'query', 'postpast', 'ldiscardself']
-        for i in range(n):
-            dyn = rnd.choice(['stochastic', 'stochastic', 'synchronous'])
-            tb = kcommon.gen_table(rnd, dyn, allow=allow, maxacts=4, rep_in_progs=(i % 4 == 0))
+        i = k = 0
+        for pos in range(n):
+            if pos % 3 == 1:
+                out.append(gen_shipped(r_ship, k))
+                k += 1
+                continue
+            rr = r_script
+            dyn = rr.choice(['stochastic', 'stochastic', 'synchronous'])
+            tb = kcommon.gen_table(rr, dyn, allow=allow, maxacts=4, rep_in_progs=(i % 4 == 0))
             if i % 3 == 0:
                 for p in tb['procs']:
                     p['events'] = []       # queue only: the a == 0 branch
-            out.append({'table': tb, 'dynamics': dyn, 'seed': rnd.randrange(1 << 30), 'prerun': rnd.random() < 0.25})
+            out.append({'table': tb, 'dynamics': dyn, 'seed': rr.randrange(1 << 30), 'prerun': rr.random() < 0.25})
+            i += 1
         return out
 
     def execute(self, case):
-        return kcommon.run_case(case)
+        if case.get('kind') == 'shipped':
+            return run_shipped(case)
+        # a run that keeps calling runPendingEvents without ever ending (an event that is due but never fires) is cut
+        # short and recorded instead of running into the per-case alarm: class-level guard, only while a script runs
+        from epydemic import Dynamics
+        from harness.queuespy import Stuck
+        orig = Dynamics.runPendingEvents
+        calls = [0]
+
+        def guarded(self_, t):
+            calls[0] += 1
+            if calls[0] > 6000:
+                raise Stuck('runPendingEvents called more than 6000 times')
+            return orig(self_, t)
+        Dynamics.runPendingEvents = guarded
+        try:
+            obs = kcommon.run_case(case)
+        finally:
+            Dynamics.runPendingEvents = orig
+        obs['stats'] = {'script_cases': 1}
+        return obs
 
     def to_coq(self, case, obs):
+        if case.get('kind') == 'shipped':
+            return None         # judged by D only; not counted as compared with the model
+        if obs.get('exception'):
+            # a run that raised (or was cut short as non-terminating) is reported by D with a concrete replay; the model is not
+            # run on it: it would execute the whole table, which may be one that the observation budget would have skipped
+            return None
         return kcommon.to_coq(case, obs)
 
     def direct(self, case, obs):
+        if case.get('kind') == 'shipped':
+            return direct_shipped(case, obs)
         if obs.get('skipped'):
             return []
         if obs['exception']:
-            return [{'signature': 'run-raised', 'detail': obs['exception']}]
+            return [{'signature': 'run-does-not-terminate' if obs['exception'].startswith('Stuck') else 'run-raised', 'detail': obs['exception']}]
         v = []
         ref = RefQueue()
         pending_rep = None      # (t, prog, e, ddt) to re-post when the current posted handler's tap arrives
@@ -138,6 +601,26 @@ class H(Harness):
         return list(seen.values())
 
     def nontrivial(self, case, obs):
+        if case.get('kind') == 'shipped':
+            if obs.get('skipped') or obs.get('exception') or not obs.get('runs'):
+                return None
+            log = obs['runs'][-1]['log']
+            fires = [o for o in log if o[0] == 'fire']
+            ties = len(fires) != len({o[3] for o in fires})
+            unposts = any(o[0] == 'unpost' and isinstance(o[4], (int, float)) for o in log)
+            reps = sum(1 for o in log if o[0] == 'rep-enter') >= 2
+            depth = 0
+            nested = False
+            for o in log:
+                if o[0] == 'fire':
+                    depth += 1
+                elif o[0] == 'fire-exit':
+                    depth -= 1
+                elif o[0] == 'post' and depth > 0:
+                    nested = True
+            if len(fires) >= 3 and (ties or unposts or reps or nested):
+                return 'shipped:' + json.dumps({k: v for k, v in case.items() if not k.startswith('_')}, sort_keys=True, default=str)
+            return None
         if obs.get('skipped'):
             return None
         hs = [o for o in obs.get('obs', []) if o[0] == 'handler' and o[5] is None]
@@ -148,4 +631,8 @@ class H(Harness):
         return None
 
     def sample_view(self, case, obs):
+        if case.get('kind') == 'shipped':
+            runs = obs.get('runs') or [{'log': []}]
+            return {'case': case, 'runs_observed': len(obs.get('runs') or []), 'first_log_entries_of_last_run': runs[-1]['log'][:16],
+                    'last_log_entry': (runs[-1]['log'] or [None])[-1], 'TIME': obs.get('time'), 'exception': obs.get('exception')}
         return {'table': case['table'], 'dynamics': case['dynamics'], 'first_observations': obs.get('obs', [])[:14], 'TIME': obs.get('time')}
